@@ -40,3 +40,17 @@ Proof.
   induction l as [|a l IH]; intro H; simpl; [reflexivity|].
   rewrite (H a (or_introl eq_refl)), IH; auto. intros a0 Hin. apply H. right. exact Hin.
 Qed.
+
+(** dict item assignment [d[k] = v]: replace the binding of k, or append *)
+Fixpoint aset (k:N) (v:ppat) (d:delta) : delta :=
+  match d with
+  | [] => [(k, v)]
+  | kv :: t => if N.eqb (fst kv) k then (k, v) :: t else kv :: aset k v t
+  end.
+Lemma aset_fresh k v d : alookup k d = None -> aset k v d = d ++ [(k, v)].
+Proof.
+  induction d as [|kv d IH]; simpl; [reflexivity|]. destruct (N.eqb (fst kv) k); [discriminate|].
+  intro H. rewrite IH by exact H. reflexivity.
+Qed.
+Lemma truthy_dict (d:delta) : (if negb (isnil d) then d else []) = d.
+Proof. destruct d; reflexivity. Qed.
